@@ -42,6 +42,8 @@ OPERANDS = [
     ("m0", "{}", NOSTORE), ("ma", '{"a": 1}', NOSTORE),
     # containers holding containers (membership and equality compare element-wise, whatever the elements are)
     ("ll1", "[[1]]", NOSTORE), ("lma", '[{"a": 1}, [1]]', NOSTORE), ("mma", '{"a": {"a": 1}}', NOSTORE),
+    # present keys / elements holding nil are present
+    ("mnil", '{"a": nil}', NOSTORE), ("lnil", "[nil]", NOSTORE),
 ]
 QUICK_OPERANDS = {"nil", "true", "false", "i0", "i1", "im1", "i7", "i2p53p1", "i2p53", "imax", "imin", "f0", "fhalf", "fm1h",
                   "f2p53", "fbig", "fnan", "sempty", "sa", "s1", "l1", "ma"}
@@ -105,8 +107,8 @@ def gen_ops(quick, seed):
                               tag="compound assignment"))
     if quick:
         # containers holding containers: membership / equality / concatenation-like operators against every container class
-        nested = [o for o in OPERANDS if o[0] in ("ll1", "lma", "mma")]
-        cont = [o for o in OPERANDS if o[0] in ("l0", "l1", "l1a", "m0", "ma", "ll1", "lma", "mma", "nil", "i1", "sa")]
+        nested = [o for o in OPERANDS if o[0] in ("ll1", "lma", "mma", "mnil", "lnil")]
+        cont = [o for o in OPERANDS if o[0] in ("l0", "l1", "l1a", "m0", "ma", "ll1", "lma", "mma", "mnil", "lnil", "nil", "i1", "sa")]
         for (an, al, av), (bn, bl, bv) in list(itertools.product(nested, cont)) + list(itertools.product(cont, nested)):
             for op in ["in", "==", "!=", "+", "<", "&&"]:
                 out.append(ps("op:%s%s%s:nst" % (an, op, bn), "probe(%s %s %s)" % (al, op, bl), tag="operator table, nested containers"))
@@ -420,8 +422,14 @@ probe(i, j)"""
         "for c = 0; c < 2; c = c + 1 { if c == 1 { break }\nd = c }\nprobe(c, d)",
         "for v in [1, 2, 3] { if v == 2 { continue }\nprobe(r)\nr = v }\nprobe(9)",
     ]
+    # for-in: body-local names never survive an iteration - whatever the number of locals, whether or not the loop variable's name
+    # already exists outside, for every kind of iterable (the point has keys named like some locals)
+    for nloc, outer, it in itertools.product([0, 1, 2, 3], [False, True], ['["a", "b", "c"]', '"abc"', '{"p": 1, "q": 2}', "[[1], [2]]"]):
+        locs = ["fs", "l2", "fi"][:nloc]
+        body = "probe(%s)\n" % ", ".join(["v"] + locs) + "".join("%s = v\n" % l for l in locs)
+        scope.append(("v = 0\n" if outer else "") + "for v in %s {\n%s}\nprobe(%s)" % (it, body, ", ".join(["v"] + locs)))
     for i, t in enumerate(scope):
-        out.append(ps("scope:%d" % i, t, pt=STD_PT, tag="scoping"))
+        out.append(ps("scope:%d" % i, t, pt=STD_PT, maporders="{" in t, tag="scoping"))
     # random nestings
     for k in range(250 if quick else 3000):
         out.append(ps("ctl:r%d" % k, rand_block(rng, 0, 3 if quick else 4, ["x", "y", "z"], in_loop=False), pt=STD_PT,
@@ -735,6 +743,14 @@ def gen_check(quick, seed):
             if quick and rng.random() < 0.5:
                 continue
             add(pre + t.replace("@", o), True, "v2 valid construct in position: " + t)
+    # v2 only: multi-target assignments (more targets than value expressions when a call yields several values)
+    for t in ["a, z[@] = two()", "a, z[0], y = 1, @", "z[@], a = two()", "a, z[0], z[@] = 1, two()", "a, b = @, 1", "a, b = 1, @", "a, b = z[@], 2",
+              "a, b = two(), @" if False else "a, b, c = two(), @"]:
+        pre = "z = [1, 2]\ny = 0\n"
+        for o in CHECK_OFFENDERS_V2:
+            add(pre + t.replace("@", o), True, "v2 offender in position: " + t)
+        for o in CHECK_VALID_V2:
+            add(pre + t.replace("@", o), True, "v2 valid construct in position: " + t)
     for t, ok in LOOP_TEMPLATES:
         for kw in ("break", "continue"):
             for v2 in (False, True):
@@ -961,7 +977,7 @@ def v2ify(progsets, keep=1.0, seed=1):
         calls = {c for c in _CALL_RE.findall(text) if c not in _KW}
         if len(p["scripts"]) != 1 or not calls <= V2_CALLS:
             continue
-        if p["id"].startswith(_SAMPLED) and rng.random() > keep:      # only the big enumerated / random families are sampled
+        if p["id"].startswith(_SAMPLED) and not p["id"].endswith((":nst", ":nstv")) and rng.random() > keep:      # only the big enumerated / random families are sampled
             continue
         q = dict(p)
         q["id"] = "v2:" + p["id"]
@@ -973,7 +989,7 @@ def v2ify(progsets, keep=1.0, seed=1):
 
 
 def gen_v2shared(quick, seed):
-    src = ([p for p in gen_ops(quick, seed) if p["id"].endswith((":ll", ":vv")) or p["id"].startswith(("un:", "tree:", "ord:"))
+    src = ([p for p in gen_ops(quick, seed) if p["id"].endswith((":ll", ":vv", ":nst", ":nstv")) or p["id"].startswith(("un:", "tree:", "ord:"))
             or any(o in p["id"] for o in ASSIGNOPS)]
            + gen_slices(quick, seed) + gen_index(quick, seed) + gen_control(quick, seed) + gen_alias(quick, seed))
     return v2ify(src, keep=0.6 if quick else 1.0, seed=seed) + v2ify(gen_errprop(quick, seed), keep=0.6 if quick else 1.0, seed=seed)
@@ -985,3 +1001,10 @@ def gen_errexpr(quick, seed):
 
 def gen_errstmt(quick, seed):
     return gen_errprop(quick, seed, "stmt")
+
+
+def gen_v2coll(quick, seed):
+    """C04 on the second interpreter: slices, indexing, aliasing and the container operators of the operator table."""
+    src = (gen_slices(quick, seed) + gen_index(quick, seed) + gen_alias(quick, seed)
+           + [p for p in gen_ops(quick, seed) if p["id"].endswith((":nst", ":nstv")) or (("in" in p["id"].split(":")[1]) and p["id"].endswith(":ll"))])
+    return v2ify(src, keep=0.5 if quick else 1.0, seed=seed)
